@@ -206,6 +206,23 @@ func (is *issuer) poke() {
 
 var errIssuer = errors.New("issuer: scripted failure")
 
+// issuerErr: what a failing issuer returns for its k-th request. A real issuer client puts its own
+// per-request timeout around the call, so its error is often (or wraps) a context error although the
+// context given to Run is alive and well: that is a failed fetch like any other.
+func issuerErr(k int) error {
+	switch k % 4 {
+	case 1:
+		rec.Count("issuer.error_is_a_wrapped_deadline_exceeded", 1)
+		return fmt.Errorf("issuer: request %d: %w", k, context.DeadlineExceeded)
+	case 2:
+		rec.Count("issuer.error_is_a_wrapped_canceled", 1)
+		return fmt.Errorf("issuer: request %d gave up: %w", k, context.Canceled)
+	case 3:
+		return context.DeadlineExceeded
+	}
+	return errIssuer
+}
+
 func (is *issuer) request(ctx context.Context, csrDER []byte) ([]*x509.Certificate, error) {
 	rec.Progress()
 	is.mu.Lock()
@@ -273,7 +290,7 @@ func (is *issuer) request(ctx context.Context, csrDER []byte) ([]*x509.Certifica
 		if oc.Kind == "empty" {
 			return nil, nil
 		}
-		return nil, errIssuer
+		return nil, issuerErr(k)
 	}
 	sn := serial.Add(1)
 	tmpl := &x509.Certificate{
@@ -320,7 +337,7 @@ func (is *issuer) request(ctx context.Context, csrDER []byte) ([]*x509.Certifica
 		is.mu.Unlock()
 		if oc.Kind == "err-with-chain" {
 			rec.Count("issuer.error_returned_with_a_usable_chain", 1)
-			return issued, errIssuer
+			return issued, issuerErr(k)
 		}
 		return issued, nil
 	}
@@ -353,7 +370,7 @@ func (a anchors) GetX509BundleForTrustDomain(spiffeid.TrustDomain) (*x509bundle.
 }
 func (a anchors) CurrentTrustAnchors(context.Context) ([]byte, error) {
 	if a.is.anchorsFail.Swap(false) {
-		return nil, errors.New("trust anchors: scripted failure")
+		return nil, fmt.Errorf("trust anchors: scripted failure: %w", []error{errors.New("unavailable"), context.DeadlineExceeded, context.Canceled}[int(a.is.anchorsV.Load()+int64(len(a.is.snapshot())))%3])
 	}
 	if a.is.anchorsUseKit {
 		if _, err := kitpem.EncodeX509Chain([]*x509.Certificate{caCert, intCert}); err != nil {
